@@ -242,8 +242,13 @@ class CHECK(Check):
                   "and one - entry per observed (event, group) pair; gamma+ = r*mean_{e,g}(u) - mean_e(u), gamma- = "
                   "r*mean_e(u) - mean_{e,g}(u); rows without event are inert; bound() is the slack on every entry; "
                   "BoundedGroupLoss/ErrorRate closed forms; for r=1 the + entries equal BaseMetrics' group rate minus "
-                  "overall rate. Tie: translator-lifted expressions (Generated/MomentsSrc.lean) + Moment objects vs the "
-                  "compiled Lean model on generated datasets; independent Fraction oracle decides violations.")
+                  "overall rate; the P(g|e)-weighted sum of an event's + (and -) entries is (r-1)*mean_e(u); gamma is "
+                  "affine in the predictor (gamma of any mixture with weights summing to 1 is the mixture of the gammas); "
+                  "a constant predictor c has (r-1)*c in every entry; the clipped losses lie in the loss object's own "
+                  "[min, max] for ALL bounds on numpy arrays and on pandas Series (two lifted clip semantics, finding F21 "
+                  "witness), and so does every BoundedGroupLoss.gamma entry. Tie: translator-lifted expressions "
+                  "(Generated/MomentsSrc.lean, Generated/LossRange.lean) + Moment / loss objects vs the compiled Lean "
+                  "model on generated datasets; independent Fraction oracle decides violations.")
     design_ref = "DESIGN.md section 4, C06"
     quick_cases = 2000
     thorough_cases = 30000
@@ -254,7 +259,8 @@ class CHECK(Check):
             "the five parity moments x {difference_bound, ratio_bound in {1,1/2,4/5,1/4} with slack, default bound}, "
             "hard or dyadic soft predictions in [0,1], containers list/ndarray/float ndarray/Series/DataFrame, predictor "
             "output (n,), (n,1) or Series; plus BoundedGroupLoss/MeanLoss with Square/Absolute/ZeroOne loss on dyadic "
-            "labels, ErrorRate with costs, and malformed configurations (both bounds, ratio outside (0,1], bad costs, "
+            "labels, the loss objects themselves (eval on ndarrays and on Series, min/max attributes, gamma) with ordered, "
+            "equal and inverted bounds, ErrorRate with costs, and malformed configurations (both bounds, ratio outside (0,1], bad costs, "
             "non-binary labels) that must be rejected. distinct = distinct full case; non-trivial = at least one "
             "(event, group) pair observed / a loss or cost case with >= 2 rows; thorough additionally enumerates all "
             "label/group/stratum assignments of 4 rows for TPR/FPR/EO")
